@@ -51,6 +51,10 @@ func (t *timeoutReader) Read(p []byte) (int, error) {
 }
 
 func runC14Header(c c14Case) (string, string) {
+	return guard2("C14", func() (string, string) { return runC14Header0(c) })
+}
+
+func runC14Header0(c c14Case) (string, string) {
 	hdr := c.S.header()
 	data := append(append([]byte{}, hdr...), c14Sentinel...)
 	if c.Truncate >= 0 {
@@ -100,6 +104,10 @@ func c14Items(s e2eSettings, arr string) []e2eItem {
 }
 
 func runC14Stream(c c14Case) (string, string) {
+	return guard2("C14", func() (string, string) { return runC14Stream0(c) })
+}
+
+func runC14Stream0(c c14Case) (string, string) {
 	items := c14Items(c.S, c.Items)
 	data := c.S.stream(items)
 	cuts := map[int]bool{}
@@ -182,6 +190,10 @@ func runC14Static() (string, string) {
 
 // runC14Reconnect: a first connection (3 frames) and then the stream under test on the same daemon instance.
 func runC14Reconnect(c c14Case) (string, string) {
+	return guard2("C14", func() (string, string) { return runC14Reconnect0(c) })
+}
+
+func runC14Reconnect0(c c14Case) (string, string) {
 	s1 := *c.S0
 	items := c14Items(c.S, c.Items)
 	res := runHandleConnTwice(s1, c.S, s1.stream(c14Items(s1, "FFF")), c.S.stream(items))
